@@ -96,7 +96,17 @@ void reader_side(sim::RunCtx& ctx) {
 
 void builder_side(sim::RunCtx& ctx) {
     int n = (int)sim::draw(20) < 16 ? (int)sim::draw(12) : (int)sim::draw(401);
-    struct El { bool leaf; std::string name; int type, rep, tlen; };
+    struct El { bool leaf; std::string name; int type, rep, tlen; bool has_lt = false; carquet_logical_type_t lt; };
+    auto same_lt = [](const carquet_logical_type_t& a, const carquet_logical_type_t& b) {
+        if (a.id != b.id) return false;
+        switch (a.id) {
+            case CARQUET_LOGICAL_DECIMAL: return a.params.decimal.precision == b.params.decimal.precision && a.params.decimal.scale == b.params.decimal.scale;
+            case CARQUET_LOGICAL_INTEGER: return a.params.integer.bit_width == b.params.integer.bit_width && a.params.integer.is_signed == b.params.integer.is_signed;
+            case CARQUET_LOGICAL_TIME: return a.params.time.unit == b.params.time.unit && a.params.time.is_adjusted_to_utc == b.params.time.is_adjusted_to_utc;
+            case CARQUET_LOGICAL_TIMESTAMP: return a.params.timestamp.unit == b.params.timestamp.unit && a.params.timestamp.is_adjusted_to_utc == b.params.timestamp.is_adjusted_to_utc;
+            default: return true;
+        }
+    };
     std::vector<El> els; std::vector<size_t> leaves;
     ctx.sample = sim::fmt("builder side: %d add ops", n);
     ctx.shape = sim::fnv(&n, sizeof n); ctx.nontrivial = n > 0;
@@ -116,6 +126,8 @@ void builder_side(sim::RunCtx& ctx) {
             SIM_CHECK((int)carquet_schema_node_physical_type(nd) == e.type, "builder.type", "element %zu type wrong", i + 1);
             SIM_CHECK(carquet_schema_node_type_length(nd) == e.tlen, "builder.type_length", "element %zu type_length %d, added %d", i + 1, carquet_schema_node_type_length(nd), e.tlen);
             SIM_CHECK(carquet_schema_node_max_def_level(nd) == (e.rep != REQ) && carquet_schema_node_max_rep_level(nd) == (e.rep == REPEATED), "builder.levels", "element %zu levels %d/%d for repetition %d", i + 1, carquet_schema_node_max_def_level(nd), carquet_schema_node_max_rep_level(nd), e.rep);
+            const carquet_logical_type_t* lt = carquet_schema_node_logical_type(nd);
+            SIM_CHECK((lt != nullptr) == e.has_lt && (!lt || same_lt(*lt, e.lt)), "builder.logical_type", "element %zu: logical type %s id %d, added %s id %d", i + 1, lt ? "present" : "absent", lt ? (int)lt->id : -1, e.has_lt ? "with" : "without", e.has_lt ? (int)e.lt.id : -1);
         }
     };
     for (int i = 0; i < n; i++) {
@@ -123,7 +135,17 @@ void builder_side(sim::RunCtx& ctx) {
         El e; e.leaf = !group; e.name = (group ? "g" : "c") + std::to_string(i); e.rep = (int)sim::draw(3);
         e.type = group ? 0 : gen::WRITABLE[sim::draw(7)]; e.tlen = e.type == T_FLBA && !group ? 1 + (int)sim::draw(16) : 0;
         if (group) { int32_t idx = cq::schema_add_group(s, e.name.c_str(), (carquet_field_repetition_t)e.rep, 0); SIM_CHECK(idx == (int32_t)els.size() + 1, "builder.add_group_index", "add_group returned %d, expected element index %zu", idx, els.size() + 1); }
-        else { carquet_status_t st = cq::schema_add_column(s, e.name.c_str(), (carquet_physical_type_t)e.type, nullptr, (carquet_field_repetition_t)e.rep, e.tlen); SIM_CHECK(st == CARQUET_OK, "builder.add_column_failed", "add_column #%d returned %d", i, (int)st); leaves.push_back(els.size()); }
+        else {
+            // a third of the columns carry a logical type (with parameters where the type has them)
+            if (sim::draw(3) == 0) {
+                memset(&e.lt, 0, sizeof e.lt); uint32_t k = sim::draw(4);
+                if (e.type == T_BA) { e.has_lt = true; static const carquet_logical_type_id_t L[] = {CARQUET_LOGICAL_STRING, CARQUET_LOGICAL_ENUM, CARQUET_LOGICAL_JSON, CARQUET_LOGICAL_BSON}; e.lt.id = L[k]; }
+                else if (e.type == T_I32) { e.has_lt = true; if (k == 0) e.lt.id = CARQUET_LOGICAL_DATE; else if (k == 1) { e.lt.id = CARQUET_LOGICAL_TIME; e.lt.params.time.unit = CARQUET_TIME_UNIT_MILLIS; e.lt.params.time.is_adjusted_to_utc = sim::draw(2); } else if (k == 2) { e.lt.id = CARQUET_LOGICAL_INTEGER; static const int8_t BW[] = {8, 16, 32}; e.lt.params.integer.bit_width = BW[sim::draw(3)]; e.lt.params.integer.is_signed = sim::draw(2); } else { e.lt.id = CARQUET_LOGICAL_DECIMAL; e.lt.params.decimal.precision = 1 + (int32_t)sim::draw(9); e.lt.params.decimal.scale = (int32_t)sim::draw((uint32_t)e.lt.params.decimal.precision + 1); } }
+                else if (e.type == T_I64) { e.has_lt = true; if (k <= 1) { e.lt.id = CARQUET_LOGICAL_TIMESTAMP; e.lt.params.timestamp.unit = (carquet_time_unit_t)sim::draw(3); e.lt.params.timestamp.is_adjusted_to_utc = sim::draw(2); } else if (k == 2) { e.lt.id = CARQUET_LOGICAL_INTEGER; e.lt.params.integer.bit_width = 64; e.lt.params.integer.is_signed = sim::draw(2); } else { e.lt.id = CARQUET_LOGICAL_TIME; e.lt.params.time.unit = sim::draw(2) ? CARQUET_TIME_UNIT_MICROS : CARQUET_TIME_UNIT_NANOS; e.lt.params.time.is_adjusted_to_utc = sim::draw(2); } }
+                else if (e.type == T_FLBA) { e.has_lt = true; if (k == 0) { e.lt.id = CARQUET_LOGICAL_UUID; e.tlen = 16; } else if (k == 1) { e.lt.id = CARQUET_LOGICAL_FLOAT16; e.tlen = 2; } else { e.lt.id = CARQUET_LOGICAL_DECIMAL; e.lt.params.decimal.precision = 1 + (int32_t)sim::draw((uint32_t)(2 * e.tlen)); e.lt.params.decimal.scale = 0; } }
+                if (e.has_lt) SIM_COUNT("probe.builder_column_with_logical_type");
+            }
+            carquet_status_t st = cq::schema_add_column(s, e.name.c_str(), (carquet_physical_type_t)e.type, e.has_lt ? &e.lt : nullptr, (carquet_field_repetition_t)e.rep, e.tlen); SIM_CHECK(st == CARQUET_OK, "builder.add_column_failed", "add_column #%d returned %d", i, (int)st); leaves.push_back(els.size()); }
         els.push_back(e);
         SIM_CHECK(carquet_schema_num_elements(s) == (int32_t)els.size() + 1, "builder.num_elements", "num_elements %d after %zu adds", carquet_schema_num_elements(s), els.size());
         SIM_CHECK(carquet_schema_num_columns(s) == (int32_t)leaves.size(), "builder.num_columns", "num_columns %d after %zu add_column calls", carquet_schema_num_columns(s), leaves.size());
@@ -150,6 +172,8 @@ void builder_side(sim::RunCtx& ctx) {
                 const El& e = els[leaves[k]];
                 SIM_CHECK(nd && e.name == carquet_schema_node_name(nd) && (int)carquet_schema_node_physical_type(nd) == e.type && (int)carquet_schema_node_repetition(nd) == e.rep && (e.type != T_FLBA || carquet_schema_node_type_length(nd) == e.tlen),
                           "builder.roundtrip_column", "leaf %zu differs after write/read", k);
+                const carquet_logical_type_t* lt = carquet_schema_node_logical_type(nd);
+                SIM_CHECK((lt != nullptr) == e.has_lt && (!lt || same_lt(*lt, e.lt)), "builder.roundtrip_logical_type", "leaf %zu ('%s'): logical type %s id %d after write/read, the schema handed to the writer had %s id %d", k, e.name.c_str(), lt ? "present" : "absent", lt ? (int)lt->id : -1, e.has_lt ? "one with" : "none,", e.has_lt ? (int)e.lt.id : -1);
             }
             SIM_COUNT("probe.builder_schema_written_and_read");
         }
